@@ -39,7 +39,8 @@ RULE = ("per discovered class supporting scale_strength: constructor arguments d
         "members (+ non-scalable / plain members); factor histories (3..9 calls, factors from a small pool so that equal factors recur) over graphs "
         "of 3 members and 1..2 (shared-member / nested) compositions; library presets; MagnitudeSampler; scheduled pipelines (4 wrap shapes x schedule "
         "kinds x worker counts 0..7 x batch sizes 1..8 x 1..16 batches x updates/samples/epochs init) simulated and on real DataLoaders "
-        "(1..4 workers). A case is distinct by its full spec; non-trivial = the subject has at least one scalable range")
+        "(1..4 workers); the same below an InterleavedSampler (main dataset + 1..2 interleaved side datasets of other lengths, every_n_epochs/updates/samples, "
+        "epochs/updates/samples durations, simulated workers 0..3 and get_data_loader() with 0..1 workers). A case is distinct by its full spec; non-trivial = the subject has at least one scalable range")
 ASSUMPTIONS = [
     "the harness generator reaches nested transforms through the public set_rng of every transform object found in instance dictionaries; whether set_rng is forwarded is C07's concern",
     "float bounds that re-derive arithmetic are compared with relative tolerance 1e-9 (restore/collapse/monotone) and 1e-12 (no compounding, scheduled differential); gate thresholds are bisected down to adjacent doubles",
@@ -49,11 +50,12 @@ ASSUMPTIONS = [
     "KDRandAugment has no identity as a whole (posterize/auto_contrast/equalize/invert); only its magnitude-driven operations documented as identity at magnitude 0 are checked, selected by answering its public op choice",
     "library presets (BYOL/MUGS/Imagenet*) contain non-scalable members with ranges: collapse/identity/gates are not judged on them; presets whose constructor fails with default arguments are listed in unconstructible_presets, not judged",
     "classes not reporting supports_scale_strength() (e.g. KDRandomApply, KDScheduledTransform itself) are outside the quantifier",
+    "scheduled below an InterleavedSampler: only MAIN samples are judged, n_batches comes from the main dataset's own length; with >= 2 workers every interleaved block is generated as a multiple of W batches (torch deals main and side batches to the workers alike, the per-worker counter only sees main batches - other block sizes are outside what the counter can support and are not driven); real loaders from get_data_loader() with 0..1 workers",
     "scheduled: full batches only; with samples % batch_size != 0 only the full batches are judged; one pass over the loader (worker re-creation between epochs is outside the claim); torch assigns batch b to worker b % num_workers",
 ]
 MONITORS = ["restore_checked", "collapse_checked", "identity_checked", "monotone_checked", "compounding_checked",
             "gate_thresholds_recovered", "sched_sim_samples_checked", "sched_signature_checked", "sched_loader_samples_checked",
-            "history_members_checked"]
+            "history_members_checked", "sched_inter_main_samples_checked"]
 
 TOL = 1e-9
 TOL_SAME = 1e-12
@@ -192,6 +194,42 @@ def _gen_sched(rng, recipes, loader):
     return spec
 
 
+def _gen_sched_inter(rng, recipes, loader):
+    """scheduled transform on the MAIN dataset of an InterleavedSampler run with 1..2 interleaved side datasets"""
+    kind = "tensor"
+    wrap = rng.choice(["S(t)", "S(t)", "C[S(t),o]", "S(C[t,o])"])
+    spec = {"kind": "sched_inter", "loader": loader, "inner": _member(rng, recipes, kind, prefix="inner"), "wrap": wrap, "input": _input(rng, kind)}
+    if "o" in wrap:
+        spec["other"] = {"flip": P._p(rng)} if rng.random() < 0.4 else _member(rng, recipes, kind, prefix="other")
+    B = rng.choice([1, 2, 2, 3, 4])
+    per_epoch = rng.choice([1, 2, 3, 4, 5])
+    init = rng.choice(["epochs", "epochs", "epochs", "updates", "samples"])
+    E = rng.choice([1, 2, 3, 4])
+    n = E * per_epoch if init == "epochs" else rng.randint(1, 3 * per_epoch)
+    # all batches (main and side) go to the workers round-robin; the per-worker counter of the scheduled transform only
+    # sees main batches, so with >= 2 workers the claim needs every interleaved block to be a multiple of W batches
+    W = rng.choice([0, 1, 1]) if loader else rng.choice([0, 1, 1, 2, 3])
+    mult = max(W, 1)
+    sides = []
+    for _ in range(rng.choice([1, 1, 2])):
+        sb = rng.choice([None, None, 1, 2, 3])
+        nb = mult * rng.randint(1, 2)                       # number of side batches per interleaved block
+        eff = sb or B
+        ln = (nb - 1) * eff + rng.randint(1, eff)             # last side batch may be partial (side batches are not judged)
+        every = rng.choice([["epochs", rng.choice([1, 1, 2])], ["updates", rng.choice([1, 2, 3])], ["samples", B * rng.choice([1, 2])]])
+        sides.append({"len": ln, "batch_size": sb, "every": every})
+    spec.update(W=W, B=B, n=n, init=init, epochs=E, main_len=per_epoch * B + (rng.choice([0, 0, B - 1]) if B > 1 else 0), sides=sides,
+                drop_last=True, shuffle_seed=rng.choice([None, rng.randrange(1000)]))
+    while True:
+        sch = S.gen_schedule(rng, n)
+        # a decodable value list does not depend on the number of batches the schedule spans: keep it out of the epochs form
+        if init != "epochs" or sch["type"] in ("default", "dict", "object"):
+            break
+    spec["schedule"] = sch
+    spec["np_seed"] = rng.randrange(2 ** 31)
+    return spec
+
+
 GRAPH_SCENARIOS = ["direct", "prescaled", "shared", "inner", "random"]
 
 
@@ -242,6 +280,7 @@ def gen_cases(run):
     n_sim = run.n(60, 2400)
     n_loader = run.n(5, 64)
     n_graph = run.n(30, 1600)
+    n_inter, n_inter_loader = run.n(14, 900), run.n(2, 32)
     plan = []
     for i in range(n_single):
         plan.append(("single", singles[i % len(singles)] if singles else None))
@@ -250,6 +289,7 @@ def gen_cases(run):
         plan.append(("common", commons[i % len(commons)] if commons else None))
     plan += [("sched_sim", None)] * n_sim + [("sched_loader", None)] * n_loader
     plan += [("graph", GRAPH_SCENARIOS[i % len(GRAPH_SCENARIOS)]) for i in range(n_graph)]
+    plan += [("sched_inter", False)] * n_inter + [("sched_inter", True)] * n_inter_loader
     # interleave so that a time-limited run still sees every kind
     order = list(range(len(plan)))
     rng.shuffle(order)
@@ -271,6 +311,8 @@ def gen_cases(run):
             yield spec
         elif kind == "sched_sim" and singles:
             yield _gen_sched(rng, recipes, loader=False)
+        elif kind == "sched_inter" and singles:
+            yield _gen_sched_inter(rng, recipes, loader=name)
         elif kind == "graph" and singles:
             yield _gen_graph(rng, recipes, name)
         elif kind == "sched_loader" and singles:
@@ -767,6 +809,135 @@ def _run_sched_loader(run, spec):
                 return
 
 
+# ================================================================================================ scheduled transform below an InterleavedSampler
+def _inter_sampler(spec, pipe, x):
+    from torch.utils.data import SequentialSampler, RandomSampler
+    from kappadata.samplers.interleaved_sampler import InterleavedSampler, InterleavedSamplerConfig
+    from kappadata.wrappers.mode_wrapper import ModeWrapper
+    main = S.make_stack(pipe, spec["main_len"], x)
+    if spec.get("shuffle_seed") is None:
+        main_sampler = SequentialSampler(main)
+    else:
+        main_sampler = RandomSampler(main, generator=torch.Generator().manual_seed(spec["shuffle_seed"]))
+    configs = []
+    for sd in spec["sides"]:
+        side = ModeWrapper(S.SchedLeaf(sd["len"], x), mode="index")      # a batch of a side dataset is a plain tensor
+        configs.append(InterleavedSamplerConfig(sampler=SequentialSampler(side), batch_size=sd["batch_size"], **{f"every_n_{sd['every'][0]}": sd["every"][1]}))
+    dur = {"epochs": {"epochs": spec["epochs"]}, "updates": {"updates": spec["n"]}, "samples": {"samples": spec["n"] * spec["B"]}}[spec["init"]]
+    return InterleavedSampler(main_sampler=main_sampler, batch_size=spec["B"], configs=configs, drop_last=spec["drop_last"], **dur)
+
+
+def _run_sched_inter(run, spec):
+    x = P.make_input(spec["input"])
+    _, ref_value = S.schedule_arg_and_reference(spec["schedule"])
+    W, B, n = spec["W"], spec["B"], spec["n"]
+    nW = max(W, 1)
+    # the duration is handed to worker_init_fn the way it is handed to the sampler; the dataset length is supplied by the
+    # sampler's dataset itself. The schedule spans the MAIN dataset's batches.
+    kwargs = {"epochs": {"batch_size": B, "epochs": spec["epochs"], "world_size": 1, "drop_last": spec["drop_last"]},
+              "updates": {"batch_size": B, "updates": n}, "samples": {"batch_size": B, "samples": n * B}}[spec["init"]]
+    np.random.seed(spec["np_seed"] % (2 ** 32))
+    torch.manual_seed(spec["np_seed"] % (2 ** 31))
+    ok, built = call_real(run, lambda: _pipe(spec, scheduled=True), crash_key="ctor-crash", what="building the scheduled pipeline")
+    if not ok:
+        return
+    ok, sampler = call_real(run, lambda: _inter_sampler(spec, built[0], x), crash_key="interleaved-ctor-crash", what="building the InterleavedSampler")
+    if not ok:
+        return
+    ref = _Reference(run, spec, x)
+    hf = _hook_factory(spec)
+    where = (f"InterleavedSampler(batch_size={B}, {spec['init']}, sides={[(sd['len'], sd['every']) for sd in spec['sides']]}), main length {spec['main_len']}, "
+             f"{'real loader' if spec['loader'] else 'simulated'} W={W}, pipeline {spec['wrap']} around {spec['inner']['cls']}, schedule {spec['schedule']['type']}")
+    run.cover("sched_inter", spec["loader"], spec["init"], W, len(spec["sides"]), tuple(sd["every"][0] for sd in spec["sides"]), spec["schedule"]["type"])
+    for b in range(n):
+        if ref.obs(ref_value(b, n), "hi") is None or ref.obs(ref_value(b, n), "lo") is None:
+            return
+
+    def judge(b, flat, draws, out, u):
+        run.count("sched_inter_main_samples_checked")
+        before = len(run.violations) + sum(run.known_hits.values())
+        _check_sample(run, spec, where, b, ref_value(b, n), flat, draws, out, ref, u)
+        return len(run.violations) + sum(run.known_hits.values()) > before
+
+    if spec["loader"]:
+        def go():
+            loader = sampler.get_data_loader(num_workers=W)
+            init = S.LoaderWorkerInit(kwargs, hf)
+            if W == 0:      # single-process loading: the hook is called by hand with rank 0
+                sampler.dataset.worker_init_fn(0, **kwargs)
+                R.inject(sampler.dataset, R.RecGen(np.random.PCG64(0), u="hi", gate=0.0, choice_hook=hf() if hf else None))
+            else:
+                loader.worker_init_fn = init
+            return [batch for batch in loader]
+        try:
+            batches = go()
+        except Exception as e:
+            if W == 0 or "Caught " in str(e):
+                kind_, where_ = core.classify_exception(e)
+                run.violation(f"scheduled-loader-crash:{type(e).__name__}", f"{where}: {type(e).__name__}: {str(e)[-1200:]}")
+            else:
+                run.count("loader_infrastructure_failures")
+            return
+        run.count("loader_runs")
+        b = 0
+        for batch in batches:
+            if torch.is_tensor(batch):
+                run.count("sched_inter_side_batches_seen")
+                continue
+            (idx, wid, xs), ctx = batch
+            if len(idx) != B:
+                continue
+            for s_ in range(B):
+                flat = {}
+                for k, v in ctx.items():
+                    if torch.is_tensor(v):
+                        flat.update(R.flat_ctx({k: v[s_]}))
+                    elif isinstance(v, (list, tuple)):
+                        flat.update(R.flat_ctx({k: [t[s_] for t in v]}))
+                run.count("sched_loader_samples_checked")
+                if judge(b, flat, None, xs[s_], "hi"):
+                    return
+            b += 1
+        if b != n:
+            raise core.Inconclusive(f"harness: interleaved loader produced {b} full main batches, expected {n}")
+        return
+
+    # simulated workers: torch hands batch j of the batch sampler (main and side alike) to worker j % W
+    ok, index_batches = call_real(run, lambda: [list(ib) for ib in sampler.batch_sampler], crash_key="interleaved-crash", what=where)
+    if not ok:
+        return
+    workers = [copy.deepcopy(sampler.dataset) for _ in range(nW)]
+    ctxm = (lambda w: S.as_worker(w, W, dataset=workers[w])) if W > 0 else (lambda w: contextlib.nullcontext())
+    for w in range(nW):
+        with ctxm(w):
+            ok, _ = call_real(run, lambda: workers[w].worker_init_fn(w, **kwargs), crash_key="scheduled-init-crash", what=f"{where}: worker_init_fn(rank={w}, {kwargs})")
+        if not ok:
+            return
+    b = 0
+    for j, ib in enumerate(index_batches):
+        w = j % nW
+        if ib[0] >= spec["main_len"]:
+            run.count("sched_inter_side_batches_seen")
+            continue
+        if len(ib) != B:
+            continue
+        with ctxm(w):
+            for s_, i in enumerate(ib):
+                u = "hi" if (b + s_) % 2 else "lo"
+                g = R.RecGen(np.random.PCG64(0), u=u, gate=0.0, choice_hook=hf() if hf else None)
+                R.inject(workers[w], g)
+                ok, r = call_real(run, lambda: workers[w][i], crash_key="scheduled-call-crash", what=f"{where}: sample {s_} of main batch {b}")
+                if not ok:
+                    return
+                ds_idx, ((idx, wid, out), ctx) = r
+                run.count("sched_sim_samples_checked")
+                if judge(b, R.flat_ctx(ctx), g.log, out, u):
+                    return
+        b += 1
+    if b != n:
+        raise core.Inconclusive(f"harness: interleaved batch sampler produced {b} full main batches, expected {n}")
+
+
 # ================================================================================================ factor histories over object graphs
 def _reach(comps, name):
     if name.startswith("m"):
@@ -848,6 +1019,8 @@ def run_case(run, spec):
     k = spec["kind"]
     if k == "graph":
         return _run_graph(run, spec)
+    if k == "sched_inter":
+        return _run_sched_inter(run, spec)
     if k in ("sched_sim", "sched_loader"):
         return _run_sched_sim(run, spec) if k == "sched_sim" else _run_sched_loader(run, spec)
     x = P.make_input(spec["input"])
